@@ -128,6 +128,22 @@ func normaliserRule(c *Ctx, fname string, inPlace bool) {
 			fmt.Sprintf("%s leaves at %s after editing the result's nodes/edges (last edit at %s) without an unconditional call to %s in between: edges to removed or absent nodes, duplicate edges per source and type, and repeated targets survive", fname, c.P.Pos(pos), c.P.Pos(le), norm))
 	}
 	n := 0
+	if !inPlace {
+		// a result under construction is normalised when it is complete: cleanEdges drops every edge
+		// whose endpoints are not (yet) nodes of the list, so a call that is followed by further
+		// additions prunes edges the later nodes would have kept
+		for i, cp := range cleanPos {
+			var later token.Pos
+			for _, e := range edits {
+				if e > cp && (later == token.NoPos || e < later) {
+					later = e
+				}
+			}
+			if later.IsValid() {
+				c.bad(R, fmt.Sprintf("%s#premature-normalisation@%d", fname, i+1), c.P.Pos(cp), fmt.Sprintf("%s normalises its result at %s and goes on adding to it (next edit at %s): edges of the first operand whose source or target only arrives with the later additions are dropped as dangling, although both ends are in the finished result", fname, c.P.Pos(cp), c.P.Pos(later)))
+			}
+		}
+	}
 	if inPlace {
 		ast.Inspect(d.fd.Body, func(node ast.Node) bool {
 			if _, ok := node.(*ast.FuncLit); ok {
@@ -510,6 +526,15 @@ func intersectRules(c *Ctx, prop string) {
 						}
 					case *ast.Ident:
 						if ix, ok := lookups[objOf(d.pkg, b)]; ok {
+							o := originOfIndex(d, baseObj(d, ix.X))
+							if o.kind == "roots" && (o.operand == recv || o.operand == par) && sameKey(types.ExprString(ix.Index), key) {
+								any = true
+								return
+							}
+						}
+					case *ast.IndexExpr:
+						// the lookup written in the condition itself (a set's has(k), a bool set)
+						if ix := boolSetLookup(d, b); ix != nil {
 							o := originOfIndex(d, baseObj(d, ix.X))
 							if o.kind == "roots" && (o.operand == recv || o.operand == par) && sameKey(types.ExprString(ix.Index), key) {
 								any = true
